@@ -68,3 +68,11 @@ impl MatchableTrait for NodeMatcher {
         Ok(match_result.wrap(Matched::SyntaxKind(self.node_kind)))
     }
 }
+
+/// Verification hooks (only with `--cfg sqruff_verif`): read-only accessors.
+#[cfg(sqruff_verif)]
+impl NodeMatcher {
+    pub fn verif_match_grammar(&self) -> &Matchable {
+        &self.match_grammar
+    }
+}
